@@ -3,6 +3,8 @@
 //verif:assume go-immutable-radix executed from source; sync.Mutex modelled
 //verif:cover VerifC22Seq writes-done overlap-left adjacent nested
 //verif:cover VerifC22Step three-ranges merged-two
+//verif:cover VerifC22Wide write-straddles-4GiB length-beyond-2^53
+//verif:assume wide harness: one write (thorough: two) and a probe, every offset / length = an 11-bit symbolic part + a solver-chosen base in {0, 2^32-1024, 2^53} (sums stay below 2^55: no int64 overflow)
 package filetracker
 
 import iradix "github.com/hashicorp/go-immutable-radix"
@@ -27,6 +29,54 @@ func vProbe(t *TFile, offs, lens []int64) {
 	d := vI64("d", 0, 64)
 	vAssume(d < c)
 	vAssert(vModified(offs, lens, x+d) == vModified(offs, lens, x), "extent-does-not-cross-boundary")
+}
+
+// VerifC22Wide: one write (thorough: two) and a probe with offsets and lengths over wide ranges: each value is a symbolic
+// 11-bit part plus a solver-chosen base out of {0, 2^32-1024, 2^53} (files above 4 GiB, lengths beyond the exact
+// range of a float64), so keys differ in their high bytes and ranges span whole 256-byte blocks.
+func VerifC22Wide() {
+	vBudget(20000000)
+	wide := func(name string, lo int64) int64 {
+		v := vI64(name, lo, 2047)
+		switch vInt(name+"Base", 0, 2) {
+		case 1:
+			v += 1<<32 - 1024
+		case 2:
+			v += 1 << 53
+		}
+		return v
+	}
+	t := &TFile{tracker: iradix.New()}
+	k := 1
+	if vThorough() {
+		k = 2
+	}
+	offs := make([]int64, k)
+	lens := make([]int64, k)
+	for i := 0; i < k; i++ {
+		offs[i] = wide("off", 0)
+		lens[i] = wide("len", 1)
+		t.trackWrite(offs[i], lens[i])
+	}
+	if vAnd(offs[0] < 1<<32, offs[0]+lens[0] > 1<<32) {
+		vCover("write-straddles-4GiB")
+	}
+	if lens[0] > 1<<53 {
+		vCover("length-beyond-2^53")
+	}
+	vAssert(t.tracker.Len()%2 == 0, "even-number-of-markers")
+	x := wide("x", 0)
+	l := wide("probeLen", 1)
+	c, mut := t.getRangeToRead(x, l)
+	vObserve("c", c)
+	vObserve("mut", mut)
+	vAssert(mut == vModified(offs, lens, x), "modified-iff-written")
+	vAssert(vAnd(c >= 1, c <= l), "extent-in-range")
+	d := vI64("d", 0, 1<<54)
+	vAssume(d < c)
+	vAssert(vModified(offs, lens, x+d) == vModified(offs, lens, x), "extent-does-not-cross-boundary")
+	// the extent is maximal: it ends at the end of the request or at a boundary
+	vAssert(vOr(c == l, vModified(offs, lens, x+c) != vModified(offs, lens, x)), "extent-is-maximal")
 }
 
 // VerifC22Seq: k writes from the empty tracker, then a probe.
